@@ -563,3 +563,31 @@ pub fn check(paths: &Paths, tier: &str) -> i32 {
         1
     }
 }
+
+
+/// Debug aid: `envsim p-run <seed> <run> [times]` executes one tier P run repeatedly and prints what was observed.
+pub fn debug_p_run(paths: &Paths, args: &[String]) -> i32 {
+    let seed: u64 = args.first().and_then(|s| s.parse().ok()).unwrap_or(1);
+    let run: u64 = args.get(1).and_then(|s| s.parse().ok()).unwrap_or(0);
+    let times: u64 = args.get(2).and_then(|s| s.parse().ok()).unwrap_or(1);
+    let ctx = match make_ctx(paths, "debug") {
+        Ok(c) => c,
+        Err(e) => {
+            eprintln!("{e}");
+            return 2;
+        }
+    };
+    for t in 0..times {
+        let wd = WorkerDir::new(&ctx.scratch, t as usize);
+        wd.install_aux(&ctx.corpus_dir);
+        let r = tierp::run_one(&ctx, &wd, seed, run);
+        if t == 0 {
+            let mut j = r.job.to_json(&ctx.corpus);
+            j.as_object_mut().unwrap().remove("source_text");
+            println!("job {}\nperturb {}", j, r.perturb.to_json());
+        }
+        println!("#{t} plan {:x} obs {:x} violation {:?} fired {:?} open_order {:?} ref_status {} procs {}", r.plan_digest, r.obs_digest, r.violation.as_ref().map(|v| (v.invariant, &v.detail)), r.stats.fired, r.stats.open_order_hash, r.stats.ref_status, r.stats.procs);
+        ctx.memo.lock().unwrap().clear();
+    }
+    0
+}
